@@ -76,6 +76,14 @@ UNITS.append(dict(
 ))
 
 UNITS.append(dict(
+    id="syntax.day",
+    package="opening-hours-syntax",
+    owner="opening-hours-syntax/src/rules/day.rs",
+    harness="kani/syntax/verif_day.rs",
+    modname="verif_day",
+    modpath="rules::day::verif_day",
+))
+UNITS.append(dict(
     id="syntax.rules",
     package="opening-hours-syntax",
     owner="opening-hours-syntax/src/rules/mod.rs",
